@@ -906,7 +906,7 @@ def run(tier: str, seed: int) -> Result:
     cfgs = [(o, l) for o, l in CONFIGS]
     for i, (ops, late) in enumerate(cfgs):
         depth, bound, pairs = (3, 1, "matching") if q else (4, 1, "all")
-        left = max(5.0, (t_end - time.monotonic()) / (len(cfgs) - i))
+        left = max(5.0, (t_end - time.monotonic()) / min(3, len(cfgs) - i))  # most configurations finish far below their share: a hungry one may take a third of what is left
         st = explore_parallel(factory, (ops, late, pairs), depth=depth, bound=bound, budget_s=left, split_depth=1)
         per_cfg.append({"operations": list(ops), "late_calls": list(late), "depth": depth, "deviation_bound": bound, "executions": st.executions,
                         "states": st.states, "transitions": st.transitions, "time_capped": st.time_capped})
